@@ -5,7 +5,7 @@
    removed later by the optimiser, Model/Opt.v).  The model is a term of Model/Opt.v, so that its
    meaning is numpy's row-major meaning of reshape / transpose fixed there, and so that the
    extracted equivalence checker can compare it with the graph einx really builds. *)
-From Coq Require Import List NArith Arith Bool.
+From Coq Require Import List NArith Arith Bool String.
 From EinxV Require Import Spec.LoopSem Model.Opt.
 Import ListNotations.
 Open Scope N_scope.
@@ -31,3 +31,29 @@ Definition same_axes (din dout : list pex) : bool :=
   forallb (fun x => existsb (fun y => (fst (fst x) =? fst (fst y)) && (snd (fst x) =? snd (fst y))) (leaves din)) (leaves dout).
 Definition rearrange_ok (din dout : list pex) : bool :=
   forallb plain din && forallb plain dout && nodupb (lnames din) && same_axes din dout.
+
+(* ---- alignment of one input of an element-wise operation ----
+   einx brings every input into the leaf order of the output, with length-1 dimensions where the
+   input lacks an output axis (numpy's broadcasting then pairs the elements): reshape to the input's
+   leaf axes, transpose them into output order, reshape inserting the unit dimensions. *)
+Definition onames (dout : list pex) : list (N * N) := map (fun x => (fst (fst x), snd (fst x))) (leaves dout).
+Definition present (din : list pex) (n : N) : bool := memNb n (lnames din).
+Definition perm_align (din dout : list pex) : list nat :=
+  map (fun nl => index_of (fst nl) (lnames din)) (filter (fun nl => present din (fst nl)) (onames dout)).
+Definition bshape (din dout : list pex) : list N :=
+  map (fun nl => if present din (fst nl) then snd nl else 1) (onames dout).
+Definition lower_align (k : nat) (din dout : list pex) : tm :=
+  MReshape (MTranspose (MReshape (MIn k (map psize din)) (llens din)) (perm_align din dout)) (bshape din dout).
+
+(* every input axis is an output axis of the same length *)
+Definition sub_axes (din dout : list pex) : bool :=
+  forallb (fun x => existsb (fun y => (fst (fst x) =? fst (fst y)) && (snd (fst x) =? snd (fst y))) (leaves dout)) (leaves din).
+Definition align_ok (din dout : list pex) : bool :=
+  forallb plain din && forallb plain dout && nodupb (lnames din) && nodupb (lnames dout) && sub_axes din dout.
+
+(* the whole element-wise call: aligned inputs, the backend's broadcasting operation, reshape to the output dimensions *)
+Definition lower_elementwise (f : String.string) (ins : list (list pex)) (dout : list pex) : tm :=
+  MReshape (MOther f (map (fun kd => lower_align (fst kd) (snd kd) dout) (combine (seq 0 (List.length ins)) ins)) ["kw:"%string] (llens dout))
+           (map psize dout).
+Definition elementwise_ok (ins : list (list pex)) (dout : list pex) : bool :=
+  forallb (fun din => align_ok din dout) ins.
